@@ -1481,6 +1481,10 @@ namespace ipr {
       void visit(const Type& t) final
       {
          // FIXME: Check.
+         // A type that names itself by a type-id has no other spelling than
+         // its own expression; printing that name would only lead back here.
+         if (auto id = util::view<Type_id>(t.name()); id != nullptr and &id->type_expr() == &t)
+            Missing_overrider::operator()(t);
          pp << xpr_name(t.name());
       }
 
